@@ -144,7 +144,7 @@ def run(ctx):
                 f = Filter.read(path)
                 ctx.event('filter:read-from-text')
             except Exception as exc:
-                ctx.violation('filter-read-raised', 'Filter.read raised: %r' % (exc,), {'wav': fw})
+                ctx.raised(exc, 'filter-read-raised', 'Filter.read raised: %r' % (exc,), {'wav': fw})
                 continue
             os.remove(path)
             # the curve read must be the curve in the file: (wavelength, response) pairs, central wavelength, name
@@ -199,12 +199,12 @@ def run(ctx):
                 if not probe.same(shared, shared0):
                     ctx.event('normalize:callers-array-modified')
             except Exception as exc:
-                ctx.violation('normalize-raised', 'normalize raised: %r' % (exc,), {'wav': fw, 'response': resp})
+                ctx.raised(exc, 'normalize-raised', 'normalize raised: %r' % (exc,), {'wav': fw, 'response': resp})
         if rng.random() < 0.5 and not int_resp:
             try:
                 f.normalize()
             except Exception as exc:
-                ctx.violation('normalize-raised', 'normalize raised: %r' % (exc,), {'wav': fw, 'response': resp})
+                ctx.raised(exc, 'normalize-raised', 'normalize raised: %r' % (exc,), {'wav': fw, 'response': resp})
         # grid
         kind = str(rng.choice(['contains', 'contained', 'partial-lo', 'partial-hi', 'same-ends', 'disjoint', 'coincide'],
                               p=[0.25, 0.15, 0.15, 0.15, 0.1, 0.05, 0.15]))
@@ -243,7 +243,7 @@ def run(ctx):
             if kind == 'disjoint':
                 ctx.event('disjoint-grid-refused(outside the quantifier)')
             else:
-                ctx.violation('rebin-raised', 'Filter.rebin raised: %r' % (exc,), {'filter_wav': fw, 'grid_nu': g, 'kind': kind})
+                ctx.raised(exc, 'rebin-raised', 'Filter.rebin raised: %r' % (exc,), {'filter_wav': fw, 'grid_nu': g, 'kind': kind})
         ctx.case(('rebin', it, ctx.shard), nontrivial=kind != 'disjoint',
                  sample={'filter_wav_um': fw, 'response': resp, 'grid_nu_hz': g, 'kind': kind} if it < 2 else None)
 
@@ -277,7 +277,7 @@ def run(ctx):
             filters_before = [_copy.deepcopy(f_) for f_ in filters]      # the curves as the caller handed them over
             convolve_model_dir(pd, filters, memmap=bool(rng.random() < 0.5))
         except Exception as exc:
-            ctx.violation('convolve-raised', 'convolve_model_dir raised: %r' % (exc,), wit0)
+            ctx.raised(exc, 'convolve-raised', 'convolve_model_dir raised: %r' % (exc,), wit0)
             ctx.rmdir(pd)
             continue
         for flt in filters_before:
@@ -313,7 +313,7 @@ def run(ctx):
                     ctx.violation('file:stale-weights-after-reconvolution', 'convolving again with a changed filter of the same name did not use the new response',
                                   dict(wit0, filter=f1.name, got=got['flux'][0], expected=ref_f[rows][0]))
             except Exception as exc:
-                ctx.violation('convolve-raised:overwrite', 'convolve_model_dir(overwrite=True) raised: %r' % (exc,), wit0)
+                ctx.raised(exc, 'convolve-raised:overwrite', 'convolve_model_dir(overwrite=True) raised: %r' % (exc,), wit0)
         ctx.rmdir(pd)
         # flat spectrum F_nu = c through a normalised filter inside the SED range returns c
         c = float(10 ** rng.uniform(-3, 3))
@@ -332,7 +332,7 @@ def run(ctx):
                               {'c': c, 'got': float(got['flux'][0, 0]), 'style': style, 'sed_wav': truth.wav, 'filter_nu': flat.nu.value,
                                'filter_response': flat.response})
         except Exception as exc:
-            ctx.violation('convolve-raised', 'convolve_model_dir raised: %r' % (exc,), wit0)
+            ctx.raised(exc, 'convolve-raised', 'convolve_model_dir raised: %r' % (exc,), wit0)
         ctx.rmdir(pd)
     mixed_grid_packages(ctx, rng, convolve_model_dir)
 
@@ -381,7 +381,7 @@ def mixed_grid_packages(ctx, rng, convolve_model_dir):
         try:
             convolve_model_dir(pd, filters)
         except Exception as exc:
-            ctx.violation('convolve-raised:mixed-grids', 'convolve_model_dir raised on SEDs with different frequency grids: %r' % (exc,), wit0)
+            ctx.raised(exc, 'convolve-raised:mixed-grids', 'convolve_model_dir raised on SEDs with different frequency grids: %r' % (exc,), wit0)
             ctx.rmdir(pd)
             continue
         ctx.regime('pkg:mixed-grids')
